@@ -110,6 +110,7 @@ def run(check, prog):
     r7_constructors(check, prog, canon)
     r8_uniform_guess(check, prog, canon)
     r9_updated_support(check, prog)
+    r10_ufunc_protocol(check, prog)
 
 
 # ----------------------------------------------------------------------
@@ -648,12 +649,31 @@ def r6_arithmetic(check, prog, canon):
     # __array_ufunc__
     it, res, owner, fd = method(prog, cq, '__array_ufunc__', depth=1)
     normal = res.returns
-    ok = bool(normal) and all(
-        o.value[0] == 'new' and o.value[1] == P + 'TransformedPrior' and
-        dict(o.value[3]).get('transformation') == sym('ufunc') and
-        dict(o.value[3]).get('base_prior') == sym('*args') for o in normal)
+    PAIRS = {'numpy.add': 'operator.add', 'numpy.subtract': 'operator.sub',
+             'numpy.multiply': 'operator.mul', 'numpy.true_divide': 'operator.truediv',
+             'numpy.divide': 'operator.truediv', 'numpy.negative': 'operator.neg',
+             'numpy.power': 'operator.pow'}
+
+    def name_of(t):
+        return t[1] if t[0] in ('extref', 'funcref', 'global') else None
+
+    def leaf_ok(v):
+        if v[0] == 'ite':
+            return leaf_ok(v[2]) and leaf_ok(v[3])
+        if v[0] == 'new' and v[1] == P + 'TransformedPrior' and \
+                dict(v[3]).get('transformation') == sym('ufunc') and \
+                dict(v[3]).get('base_prior') == sym('*args'):
+            return True
+        # routed to the Python operator of the same name (which has the zero and
+        # identity rules): TABLE[ufunc](*args), TABLE pairing numpy.f with operator.f
+        if v[0] == 'call' and v[1][0] == 'idx' and v[1][2] == sym('ufunc') and \
+                v[1][1][0] == 'dict':
+            return all(PAIRS.get(name_of(k)) == name_of(x) for k, x in v[1][1][1])
+        return False
+    ok = bool(normal) and all(leaf_ok(o.value) for o in normal)
     check.require(ok, 'R6-ufunc', 'Prior.__array_ufunc__',
-                  'np.f(prior, ...) = TransformedPrior(f, args)', prog.loc(owner, fd),
+                  'np.f(prior, ...) = TransformedPrior(f, args), or the Python operator '
+                  'of the same name for the arithmetic ufuncs', prog.loc(owner, fd),
                   fail_detail='returns %s' % [show(o.value)[:100] for o in normal])
     # TransformedPrior.guess / sample: transformation applied position-wise
     tq = P + 'TransformedPrior'
@@ -875,3 +895,44 @@ def r9_updated_support(check, prog):
                   'a prior with declared bounds is updated to a BoundedGaussian with the '
                   'same bounds in every case (%d rows)' % rows, loc,
                   fail_detail='; '.join(bad[:3]))
+
+
+def r10_ufunc_protocol(check, prog):
+    """R10: the zero / identity rules of prior arithmetic hold whichever operand
+    NumPy dispatches on.
+
+    Prior defines __array_ufunc__, so for `np.float64(0) * prior`, `arr[0] + prior`
+    or an explicit `np.multiply(prior, 0)` NumPy never falls back to __rmul__ /
+    __radd__: it calls prior.__array_ufunc__(np.multiply, '__call__', 0.0, prior).
+    "Multiplying by 0 raises, adding 0 or multiplying by 1 returns the prior
+    itself" therefore needs __array_ufunc__ to treat the arithmetic ufuncs like
+    the operators -- its result must depend on *which* ufunc it was given."""
+    q = P + 'Prior.__array_ufunc__'
+    if not prog.has_func(q):
+        return
+    fd = prog.func(q)
+    loc = prog.loc(q, fd)
+    it = Interp(prog, max_depth=0, inline_new=False)
+    res = it.analyze(q)
+    uf = sym(fd.args.args[1].arg)
+    # every outcome that builds a TransformedPrior straight from the ufunc must sit
+    # on a path that has first looked at the ufunc (is / == / in / dict lookup)
+    bad = []
+    for o in res.returns:
+        v = o.value
+        direct = v[0] == 'new' and v[1].endswith('TransformedPrior') and (
+            uf in v[2] or uf in [x for k_, x in v[3]])
+        if not direct:
+            continue
+        looked = any(any(x == uf for x in subterms(ct)) for ct, pol in o.cond)
+        if not looked:
+            bad.append(' and '.join(('' if p else 'not ') + show(t)[:50] for t, p in o.cond))
+    # the arithmetic operators themselves do have the rules (R6 checks their form)
+    mul = prog.has_func(P + 'Prior.__mul__')
+    check.require(not bad and mul, 'R10-ufunc-protocol', 'Prior.__array_ufunc__',
+                  'arithmetic ufuncs (add, subtract, multiply, divide, negative) get the '
+                  'zero / identity treatment of the operators', loc,
+                  fail_detail='TransformedPrior(ufunc, args) is returned for every ufunc '
+                  'under [%s]: np.float64(0) * prior is a prior (it should raise), '
+                  'np.float64(1) * prior and np.float64(0) + prior are new objects (they '
+                  'should be the prior itself)' % '; '.join(bad)[:160])
